@@ -2,8 +2,12 @@ package main
 
 import (
 	"github.com/jamf/regatta/storage/cluster"
+	"github.com/jamf/regatta/storage/kv"
 )
 
 func collectMoreConstants() {
 	addN("cluster_noLeader", cluster.VerifNoLeader, "cluster.noLeader")
+	addN("kv_ResultCodeFailure", kv.ResultCodeFailure, "kv.ResultCodeFailure")
+	addN("kv_ResultCodeSuccess", kv.ResultCodeSuccess, "kv.ResultCodeSuccess")
+	addN("kv_ResultCodeVersionMismatch", kv.ResultCodeVersionMismatch, "kv.ResultCodeVersionMismatch")
 }
